@@ -445,11 +445,11 @@ def check_seq(pid, tier, seed):
     if tier == "quick":
         plan = [(200, 6000)] * 12 + [(600, 800)] * 4
     else:
-        plan = [(200, 150000)] * 8 + [(600, 15000)] * 6 + [(1500, 3000)] * 2
+        plan = [(200, 800000)] * 8 + [(600, 80000)] * 6 + [(1500, 15000)] * 2
     if pid == "C10":
         plan = [(s, max(1, c // 3)) for s, c in plan]
     if pid == "C08":
-        plan = [(60, 3000)] * 12 + [(150, 300)] * 4 if tier == "quick" else [(60, 10000)] * 10 + [(150, 1500)] * 6
+        plan = [(60, 3000)] * 12 + [(150, 300)] * 4 if tier == "quick" else [(60, 60000)] * 10 + [(150, 6000)] * 6
     cmds = []
     for i, (size, cases) in enumerate(plan):
         cmds.append([exe, "--prop", pid, "--seed", str(seed * 1000 + i), "--cases", str(cases), "--size", str(size),
@@ -480,7 +480,7 @@ def check_seq(pid, tier, seed):
     if pid == "C08":
         # QSBR part: resume / thread start / deferred-deallocation request (no-sanitizer build, operator new intercepted)
         qf = build("qsbr_fault")
-        per = 4000 if tier == "quick" else 150000
+        per = 4000 if tier == "quick" else 400000
         qcmds = [[qf, "--seed", str(seed * 1000 + 500 + i), "--cases", str(per), "--out",
                   os.path.join(outdir, f"qstats{i}.json"), "--fail-dir", outdir] for i in range(NCPU)]
         for c, rc, out, err in run_parallel(qcmds, timeout=3 * 3600):
@@ -519,7 +519,7 @@ def check_seq(pid, tier, seed):
             cplans = [["--seed", str(seed * 1000 + 700 + i), "--programs", "16", "--dfs-p", "1", "--dfs-cap", "3000",
                        "--pct", "30", "--rand", "30"] for i in range(NCPU)]
         else:
-            cplans = [["--seed", str(seed * 1000 + 700 + i), "--programs", "800", "--dfs-p", "2", "--dfs-cap", "20000",
+            cplans = [["--seed", str(seed * 1000 + 700 + i), "--programs", "200", "--dfs-p", "2", "--dfs-cap", "20000",
                        "--pct", "60", "--rand", "60"] for i in range(NCPU)]
         run_sched_workers(pid, olc, cplans, cdir, res)
         conc = merge_stats(sched_stats_files(cdir, len(cplans)))
@@ -982,11 +982,11 @@ def check_olc(pid, tier, seed):
         plans = []
         for i in range(NCPU):
             if i % 4 == 0:
-                plans.append(["--seed", str(seed * 1000 + i), "--shape", "pairs", "--programs", "1500", "--dfs-p", "3",
+                plans.append(["--seed", str(seed * 1000 + i), "--shape", "pairs", "--programs", "150", "--dfs-p", "3",
                               "--dfs-cap", "60000", "--pct", "50", "--rand", "50"])
             else:
-                plans.append(["--seed", str(seed * 1000 + i), "--programs", "1500", "--dfs-p", "2", "--dfs-cap", "30000",
-                              "--pct", "100", "--rand", "100", "--pct-depth", "4"])
+                plans.append(["--seed", str(seed * 1000 + i), "--programs", "300", "--dfs-p", "2", "--dfs-cap", "30000",
+                              "--pct", "150", "--rand", "150", "--pct-depth", "4"])
     # every fourth worker (offset 2, 3 alternating shapes) runs the NDEBUG build
     plans = [(["--exe", exe_nd] + pl) if i % 8 in (2, 5) else pl for i, pl in enumerate(plans)]
     run_sched_workers(pid, exe, plans, outdir, res)
@@ -1030,7 +1030,7 @@ def check_c17(pid, tier, seed):
             rc, out = replay_once(exe, [], path)
             if rc != 0 and confirm_replay(exe, [], path):
                 res.violations.append((path, out[-300:]))
-    per = 1200 if tier == "quick" else 120000
+    per = 1200 if tier == "quick" else 40000
     cmds, names = [], []
     for i in range(NCPU):
         names.append(f"exh{i}")
@@ -1285,7 +1285,7 @@ def check_c13(pid, tier, seed):
         rc, out = replay_once(exe, [], path, timeout=1800)
         if rc != 0:
             res.violations.append((path, out[-300:]))
-    runs = 1500 if tier == "quick" else 60000
+    runs = 1500 if tier == "quick" else 200000
     cmds = [[exe, "--seed", str(seed * 1000 + i), "--runs", str(runs), "--out", os.path.join(outdir, f"stats{i}.json"),
              "--fail-dir", outdir] for i in range(NCPU)]
     tsan = build("mx_tsan")   # ThreadSanitizer build: an operation that skips the mutex races on tree memory
